@@ -270,6 +270,10 @@ func (e *Env) dominatedByGates(rule string, fn *ssa.Function, cfg gcfg, calleePa
 				reached = true
 			}
 		}
+		if stop[fn.Blocks[0]] {
+			reached = true // the call sits in the entry block: nothing can precede it on an edge
+			w = []string{"the call is in the entry block of " + name}
+		}
 		// the gate may be established inside the stop block itself, before the call: not accepted (fail closed)
 		if !reached {
 			x := e.R.OK(rule, key, e.P.Pos(fn.Pos()), "every path to the call passes "+g.Desc)
@@ -307,5 +311,113 @@ func (e *Env) callOrder(rule, key string, fn *ssa.Function, first, second gate.G
 		e.R.OK(rule, k, e.P.InstrPos(b), what)
 	} else {
 		e.R.Fail(rule, k, e.P.InstrPos(b), "order violated: "+what)
+	}
+}
+
+// dominatedBy: some branch edge that dominates block b carries a fact accepted
+// by pred (the edge's target has a single predecessor and dominates b).
+func dominatedBy(b *ssa.BasicBlock, pred func(gate.Fact) bool) bool {
+	for d := b; d != nil; d = d.Idom() {
+		p := d.Idom()
+		if p == nil {
+			break
+		}
+		ifi, ok := p.Instrs[len(p.Instrs)-1].(*ssa.If)
+		if !ok {
+			continue
+		}
+		for i, s := range p.Succs {
+			if s != d || len(s.Preds) != 1 {
+				continue
+			}
+			for _, f := range gate.EdgeFacts(ifi.Cond, i == 0) {
+				if pred(f) {
+					return true
+				}
+			}
+		}
+	}
+	return false
+}
+
+// forAllIterationsAt is forAllIterations for one given loop (header, body).
+func forAllIterationsAt(e *Env, rule string, fn *ssa.Function, l [2]*ssa.BasicBlock, label string, cfg gcfg, g gate.Gate) {
+	name := load.FuncName(fn)
+	ctx := gate.New(e.P, e.P.VTA(), cfg.assume...)
+	key := fmt.Sprintf("%s:forall(%s):%s", name, label, g.Key)
+	ok, w := ctx.EstablishedFrom(fn, l[1], gate.DefaultOutcome(fn), g, map[*ssa.BasicBlock]bool{l[0]: true})
+	if !ok {
+		x := e.R.Fail(rule, key, e.P.Pos(fn.Pos()), "an iteration of the "+label+" can finish without "+g.Desc, w...)
+		x.Config = cfg.name
+		return
+	}
+	if early := earlyExit(ctx, fn, l[0], l[1]); early != "" {
+		x := e.R.Fail(rule, key, e.P.Pos(fn.Pos()), "the "+label+" can be left before all elements were visited and still succeed: "+early)
+		x.Config = cfg.name
+		return
+	}
+	x := e.R.OK(rule, key, e.P.Pos(fn.Pos()), "every iteration passes "+g.Desc+"; the loop is left only at its header or towards failure")
+	x.Config = cfg.name
+}
+
+// countedLoop: the loop `for i := c; i < bound; i++` whose bound matches
+// boundPat: every iteration passes each gate, no early successful exit.
+func countedLoop(e *Env, rule string, fn *ssa.Function, boundPat string, gates ...gate.Gate) {
+	if fn == nil {
+		return
+	}
+	name := load.FuncName(fn)
+	var loops [][2]*ssa.BasicBlock
+	for _, b := range fn.Blocks {
+		ifi, ok := b.Instrs[len(b.Instrs)-1].(*ssa.If)
+		if !ok {
+			continue
+		}
+		if c, ok := ifi.Cond.(*ssa.BinOp); ok && c.Op.String() == "<" && prov.Match(boundPat, prov.Of(c.Y)) {
+			if _, isPhi := c.X.(*ssa.Phi); isPhi {
+				loops = append(loops, [2]*ssa.BasicBlock{b, b.Succs[0]})
+			}
+		}
+	}
+	if len(loops) == 0 {
+		e.R.Undecided(rule, name+":counted("+boundPat+")", e.P.Pos(fn.Pos()), "no counted loop bounded by "+boundPat+" found")
+		return
+	}
+	for i, l := range loops {
+		for _, g := range gates {
+			forAllIterationsAt(e, rule, fn, l, fmt.Sprintf("counted-loop#%d", i+1), noCfg, g)
+		}
+	}
+}
+
+// afterStore: from every store to an address matching addrPat, every path to
+// an exit with outcome o passes each gate.
+func (e *Env) afterStore(rule string, fn *ssa.Function, addrPat string, o gate.Outcome, gates ...gate.Gate) {
+	if fn == nil {
+		return
+	}
+	name := load.FuncName(fn)
+	ctx := gate.New(e.P, e.P.VTA())
+	n := 0
+	for _, b := range fn.Blocks {
+		for _, in := range b.Instrs {
+			st, ok := in.(*ssa.Store)
+			if !ok || !prov.Match(addrPat, prov.Of(st.Addr)) {
+				continue
+			}
+			n++
+			for _, g := range gates {
+				key := fmt.Sprintf("%s:after-store(%s)#%d:%s", name, addrPat, n, g.Key)
+				ok, w := ctx.EstablishedFrom(fn, b, o, g, nil)
+				if ok {
+					e.R.OK(rule, key, e.P.InstrPos(in), "after the store every path to "+o.String()+" passes "+g.Desc)
+				} else {
+					e.R.Fail(rule, key, e.P.InstrPos(in), "after the store a path reaches "+o.String()+" without "+g.Desc, w...)
+				}
+			}
+		}
+	}
+	if n == 0 {
+		e.R.Fail(rule, name+":after-store("+addrPat+")", e.P.Pos(fn.Pos()), "no store to "+addrPat)
 	}
 }
